@@ -17,8 +17,11 @@ from __future__ import annotations
 import copy
 import operator
 import pickle
+import re
 import types
 import warnings
+
+_ADDR = re.compile(r" at 0x[0-9a-fA-F]+")
 
 # ------------------------------------------------------------------ helper classes (module level: picklable, stable repr)
 
@@ -219,7 +222,9 @@ class Canon:
         t = type(v).__name__
         if d > 6:
             return [t, "..."]
-        if v is None or v is NotImplemented or isinstance(v, (bool, str, bytes, float, complex)):
+        if isinstance(v, str):
+            return [t, _ADDR.sub(" at 0x?", repr(v))]  # default object reprs embed id()
+        if v is None or v is NotImplemented or isinstance(v, (bool, bytes, float, complex)):
             return [t, repr(v)]
         if isinstance(v, int):
             if self.idnames and int(v) in self.idnames:
@@ -239,8 +244,11 @@ class Canon:
             return [t, sorted(repr(x) for x in v)]
         if isinstance(v, types.MappingProxyType):
             return [t, [[self.cv(k, d + 1), self.cv(x, d + 1)] for k, x in v.items()]]
-        if isinstance(v, slice):
+        if isinstance(v, (slice, operator.itemgetter, type)):
             return [t, repr(v)]
+        if callable(v):
+            # bound dunder methods are `method` objects in the pure build and `method-wrapper`s of a cdef class: compare by name only
+            return ["callable", getattr(v, "__name__", "?")]
         r = repr(v)
         if " at 0x" in r:
             r = r.split(" at 0x")[0] + ">"
@@ -248,7 +256,7 @@ class Canon:
 
 
 def _exc_entry(e):
-    return ["exc", type(e).__name__, str(e)[:200], type(e).__module__]
+    return ["exc", type(e).__name__, _ADDR.sub(" at 0x?", str(e))[:200], type(e).__module__]
 
 
 class Tracer:
@@ -893,11 +901,6 @@ def run_row(case, T):
             T.do(lambda: sorted(rows))
         elif op == "dictkey":
             T.do(lambda: {r: 1}[r._to_tuple_instance()])
-        elif op == "new_blank":
-            def f():
-                r2 = type(r).__new__(type(r))
-                return [r2._data is None, r2._parent is None]
-            T.do(f)
         elif op == "init_kw":
             T.do(lambda: type(r)(parent=r._parent, processors=None, key_to_index=r._key_to_index, data=r._data))
         elif op == "init_badk2i":
@@ -1162,6 +1165,8 @@ def run_anon(case, T):
                 T.do(m.get_anon, o)
                 pool.append(o)
         elif op == "fmt":
+            if kk == "poolid":
+                key = "pid x"  # a raw id() must not end up inside a string key
             T.do(lambda: ("%(" + str(key) + ")s|%(" + str(key) + ")s") % m)
         elif op == "len":
             T.do(len, m)
